@@ -1257,7 +1257,8 @@ Section Editor.
        | Some text =>
          edit_yank text a n ;;;
          (* vi: the cursor was moved back onto the last character put; the yank is forgotten (repair of F21) *)
-         (if is_emacs then eret tt else (edo s2 <- eget; set_kr (kr_reset (e_kr s2))))
+         (* emacs: the ring is told how often the text was inserted (repair of K2) *)
+         (edo s2 <- eget; set_kr (if is_emacs then kr_repeated (e_kr s2) n else kr_reset (e_kr s2)))
        | None => eret tt
        end) ;;; eret Proceed
     | CViYankTo m =>
